@@ -797,6 +797,16 @@ impl TransactionalMemory {
         self.storage.check_io_errors().is_err()
     }
 
+    // Whether the slot that `repair_primary_corrupted()` would fall back to failed its own
+    // checksum when the header was loaded
+    pub(crate) fn secondary_slot_corrupted(&self) -> bool {
+        self.state
+            .lock()
+            .unwrap()
+            .header
+            .secondary_slot_failed_verification()
+    }
+
     pub(crate) fn repair_primary_corrupted(&self) {
         let mut state = self.state.lock().unwrap();
         state.header.swap_primary_slot();
